@@ -138,20 +138,25 @@ def design_checks(ctx, thorough):
                          Opts='{"plain","retrieve","overwrite"}', Types='{"create","delete"}',
                          MaxBatch=2, MaxReq=2, InjectFail="FALSE")),
         ("mc_three", dict(masked, Node="{1,2,3}", BaseName='{"a"}', Kinds='{"index","fixed","virtual","free"}',
-                          MaxBatch=2 if thorough else 1, MaxReq=3 if thorough else 2, Chain="TRUE")),
+                          MaxBatch=2 if thorough else 1, MaxReq=2, Chain="TRUE")),
     ]
     if thorough:
         runs.append(("mc_deep", dict(masked, Kinds='{"index","fixed","virtual","calc"}', MaxReq=3,
                                      Opts='{"plain","overwrite"}', InjectFail="FALSE")))
+        # every deviation repaired, failures driven by invalid inputs allowed ANYWHERE (no masking):
+        # shows that single requests without the overwrite option have no other window
+        runs.append(("mc_inputs", dict(Window_EngineBeforeMeta="TRUE", AnyPeerOrder="TRUE",
+                                       Kinds='{"index","fixed","virtual","free","calc"}', ExtraName='{"a_time"}',
+                                       Opts='{"plain","retrieve"}', MaxBatch=2, MaxReq=2)))
     res = []
 
     def one(item):
         tag, consts = item
         return tag, ctx.tlc(AREA, "ChannelSvc", tag + ".cfg", files={tag + ".cfg": cfg("Spec", consts, {}, inv)},
-                            tag=tag, workers=4 if thorough else 3, timeout=1500,
+                            tag=tag, workers=5 if thorough else 3, timeout=2400,
                             coverage=(thorough and tag == "mc_kinds"))
     ctx.spec_copy(AREA)
-    with concurrent.futures.ThreadPoolExecutor(max_workers=3) as ex:
+    with concurrent.futures.ThreadPoolExecutor(max_workers=5 if thorough else 3) as ex:
         for tag, r in ex.map(one, runs):
             if r.violated:
                 raise vlib.Inconclusive(
@@ -251,7 +256,8 @@ def judge(ctx, rows, by_id, tag, notes):
         if r2 is not None and r2["r"] in ("drift", "inconclusive"):
             real.append((by_id[row["id"]], r2))
         else:
-            notes.append("non-reproducing %s (%s): %s" % (row["r"], tag, json.dumps(row.get("drift") or row.get("note"))[:300]))
+            notes.append("non-reproducing %s (%s): %s | %s" % (row["r"], tag, json.dumps(row.get("drift") or row.get("note"))[:300],
+                                                                  " ; ".join(row.get("log") or [])[:700]))
     if len(other) > 6:
         notes.append("%d further drift/inconclusive rows in %s not re-run" % (len(other) - 6, tag))
     return real
@@ -264,16 +270,16 @@ def gen_profiles(thorough):
     # bounded-exhaustive (BFS): every behaviour of the small alphabet
     p.append(dict(name="bfs2", mode="bfs", sample=None if thorough else 500,
                   consts=dict(MaxReq=2, MaxRestart=1), depth=2))
-    p.append(dict(name="bfs_del", mode="bfs", sample=None if thorough else 350,
+    p.append(dict(name="bfs_del", mode="bfs", sample=6000 if thorough else 350,
                   consts=dict(Node="{1,2}", BaseName='{"a"}', Kinds='{"index","virtual","free"}',
                               Types='{"create","delete","rename"}', ExtraName='{"b"}', MaxReq=3), depth=3))
     # every engine-backed kind created and deleted (fixed- and variable-density data, index)
     for nm, kinds in (("bfs_fixed", '{"index","fixed"}'), ("bfs_variable", '{"index","variable"}')):
-        p.append(dict(name=nm, mode="bfs", sample=None if thorough else 300,
+        p.append(dict(name=nm, mode="bfs", sample=2500 if thorough else 300,
                       consts=dict(Node="{1,2}" if thorough else "{1}", BaseName='{"a","b"}', Kinds=kinds,
                                   Types='{"create","delete"}', MaxReq=3), depth=3))
     # options on batches of two
-    p.append(dict(name="bfs_opts", mode="bfs", sample=None if thorough else 300,
+    p.append(dict(name="bfs_opts", mode="bfs", sample=3000 if thorough else 300,
                   consts=dict(Node="{1,2}" if thorough else "{1}", BaseName='{"a","b"}', Kinds='{"index","virtual"}',
                               Opts=opts, Types='{"create"}', MaxBatch=2, MaxReq=2), depth=2))
     # restarts: counters, engine directories and names must survive (on-disk storage)
@@ -284,7 +290,7 @@ def gen_profiles(thorough):
                   consts=dict(Node="{1,2}" if thorough else "{1}", BaseName='{"a","b"}', Kinds='{"index","virtual"}',
                               Types='{"create","rename"}', MaxReq=3, MaxRestart=1), depth=3))
     # two CreateMany calls inside one caller transaction
-    p.append(dict(name="bfs_chain", mode="bfs", sample=None if thorough else 200,
+    p.append(dict(name="bfs_chain", mode="bfs", sample=3000 if thorough else 200,
                   consts=dict(Node="{1,2}", BaseName='{"a","b"}' if thorough else '{"a"}',
                               Kinds='{"index","virtual","free"}', Types='{"create"}',
                               Chain="TRUE", MaxReq=2), depth=2))
